@@ -246,7 +246,7 @@ def plans_for(chk):
     base = dict(oq.BASE)
     sc = oq.scale()
     if chk.quick:
-        return [("InitPart2", dict(base, K=1, GridKeep=max(1, int(35 * sc)), NQ=int(500 * sc), NH=4, Mixed=False))]
+        return [("InitPart2", dict(base, K=1, GridKeep=max(1, int(100 * sc)), NQ=int(800 * sc), NH=4, Mixed=False))]
     return [("InitPart2", dict(base, K=1, NQ=int(3000 * sc), NH=4, Mixed=False)),
             ("InitPart2", dict(base, K=1, GridKeep=30, NQ=int(3000 * sc), NH=4, Mixed=True))]
 
@@ -271,7 +271,7 @@ def main(chk):
     for via in ("direct", "jot", "aot", "items"):
         for poly in ("none", "wpall", "wppart") + (("sip",) if via in ("direct", "items") else ()):
             for mk in ("single", "joined"):
-                if not chk.violations and not any(v for k_, v in cov.items() if k_.startswith("%s/%s/" % (via, poly)) and k_.endswith("/" + mk)):
+                if oq.scale() >= 1 and not chk.violations and not any(v for k_, v in cov.items() if k_.startswith("%s/%s/" % (via, poly)) and k_.endswith("/" + mk)):
                     chk.machinery("vacuous: %s / %s / %s never ran on a result containing a subclass row" % (via, poly, mk))
     shapes = {(tuple(c["ds"]["cls"]), c["ds"]["c2par"]) for c in cases}
     samples = [dict(ds=c["ds"], q=c["q"], rows=c["rows"], objs=c["objs"]) for c in cases
